@@ -188,7 +188,7 @@ theorem entries_run (fs : Bytes → Option Bytes) (inc : Asm.Inc) (main : Bytes)
         rw [hfind1, if_pos ⟨g4, rfl⟩]
     have hbuild : Front.build a (parts e.instr e.addr).1 (parts e.instr e.addr).2 (Asm.frontEval tbl1) true = .completed e.instr := by
       have hE : EvalIsSimp (Asm.frontEval tbl1) (fun n => tbl1.get n) := by
-        intro x ch a' h; simp [Asm.frontEval, Asm.evalIn, h]
+        intro x ch a' h; exact Asm.frontEval_complete _ x ch a' h
       have := show_assembles_proof e.instr e.addr (Asm.frontEval tbl1) true
         (printable_of_encode e.instr e.addr hws he wf htr)
         (evalOK_simp (Asm.frontEval tbl1) (fun n => tbl1.get n) hE e.instr e.addr hlk (memNonneg_of_encode e.instr hws he))
